@@ -8,8 +8,9 @@ ENTRY = dict(
         theorems=["c19_wire_normal_form", "c19_no_leading", "c19_no_trailing", "c19_no_double", "c19_wf_resets_wf",
                   "c19_pattern_reset_free", "c19_pattern_pointwise",
                   "c19_no_reset", "c19_pre_pass_pattern", "c19_no_reuseb_sound", "c19_suffix_avoids_sourcesb_sound",
-                  "c19_values_unaffected", "c19_repair_values",
-                  "c19_finish_postconditions", "c19_finish_values", "c19_reference_total", "c19_second_clause",
+                  "c19_passes_bit_terms", "c19_repair_bit_terms",
+                  "c19_finish_postconditions", "c19_finish_bit_terms", "c19_reference_total", "c19_second_clause_bit_terms",
+                  "c19_unseparated_suffix", "c19_unseparated_no_reset", "c19_partitioned_no_reuse", "c19_placeholder_bit_masked",
                   "c19_registry_bases_class", "c19_env_entry_class", "c19_all_bases_classes", "c19_move_table_agrees_with_c02",
                   "c19_cut_wires_no_reuse",
                   "c19_input_ok_plain", "c19_cut_wires_no_reuse_gen",
@@ -18,7 +19,9 @@ ENTRY = dict(
         allowed_axioms=[],
         facts=["c19_move_table", "c19_stage_order", "c19_pass_names", "c19_dummy_index"],
         harness="c19",
-        level_text="Unbounded theorems (all circuits, all qubit counts, all map choices, by induction over instruction lists) about the "
+        level_text="Clause 1 is proved for observables that are the identity on every Move source (always the case after "
+                   "cut_wires/expand_observables; with hand-placed Moves an observable on a source is a use of that qubit and one Reset "
+                   "must and does stay, c19_ex_obs_on_source). Unbounded theorems (all circuits, all qubit counts, all map choices, by induction over instruction lists) about the "
                    "executable model of one subexperiment of generate_cutting_experiments: (1) after the three reset passes (flags, early "
                    "exits and index deletion modelled) every wire is its old sequence with leading resets dropped, then trailing resets "
                    "dropped, then reset runs squashed - hence no reset first or last on a qubit and no two consecutive resets, in every "
@@ -48,7 +51,26 @@ ENTRY = dict(
                    "(modelling assumption M1); that the placeholder bit is masked out of every observable is C11's c11_dummy, cited, not "
                    "re-proved here.",
         assumptions=[
-            "c19_second_clause is the property's second clause on the model for arbitrary subcircuits: hypotheses are only `valid` "
+            "RIDER to clause 1 ('whatever the observables'): c19_no_reset is proved for observable groups whose measured qubits avoid every "
+            "Move source (suffix_avoids_sources; kind: input precondition). The hypothesis is necessary - c19_ex_obs_on_source: with Z on a "
+            "hand-placed Move's source the model, and the implementation alike (`h 0; Move(0,1); s 1`, observable `IZ`), keep one Reset "
+            "between the QPD measurement and the observable measurement, and removing it would change the values. After "
+            "cut_wires/expand_observables a source always carries the identity: discharged in c19_separated_suffix (separated) and "
+            "c19_unseparated_suffix / c19_unseparated_no_reset (unseparated). The harness' judge counts an observable on a source as a use",
+            "hand-placed Moves through partition_problem: c19_partitioned_no_reuse covers circuits whose Moves are already TwoQubitQPDGates "
+            "(cut_gates, then any labelling) and whose other cut gates have reset-free bases; a PLAIN `Move` instruction crossing a partition "
+            "(cut by partition_problem itself) is not covered by a theorem (open: c19_partitioned_no_reuse_open), only by the streams "
+            "moves_fresh_labels / moves_obs_on_source and the judge",
+            "the `_bit_terms` theorems (c19_passes_bit_terms, c19_repair_bit_terms, c19_finish_bit_terms, c19_second_clause_bit_terms) prove "
+            "equality of the Herbrand terms of the classical bits, excluding the placeholder bit of an identity group; "
+            "c19_placeholder_bit_masked (from C11's cog_post_init/decode) shows that bit is ignored by the decoding; M1 (terms -> laws, "
+            "kind: physics) and the reconstruction formula (C06) are cited, not composed; that generate_cutting_experiments calls the "
+            "modelled pipeline with these arguments for every sample (budget clause) is C05's statement",
+            "hypothesis kinds of the workflow theorems (c19_separated_*, c19_unseparated_*, c19_partitioned_no_reuse): dx_contract and "
+            "grouping_contract are oracle contracts (inhabited: c10_dx_contract_inhabited, the examples' oracles); wf_circ / input_ok / "
+            "no_uuid / letter count / no_halves are input preconditions; partition_problem = Ok, collection = Ok, finish = Ok are "
+            "success-case premises (a refusal returns no subexperiment)",
+            "c19_second_clause_bit_terms is the property's second clause on the model for arbitrary subcircuits: hypotheses are only `valid` "
             "(C14: a proper grouping with in-range map ids) and sub_ok (indices in range, arities of Reset/Measure/placeholders/QPDMeasure); "
             "the reference circuit's existence and well-formedness are PROVED (c19_reference_total), no longer assumed; what remains outside: "
             "M1, the masking of the placeholder bit (C11) and the reconstruction formula (C06)",
@@ -58,7 +80,7 @@ ENTRY = dict(
             "basis is checked per case by the C19 correspondence (the env literal), not proved; hand-made QPDBasis objects stay a hypothesis",
             "finish-level statements: c19_finish_postconditions (no reset first/last/doubled on any wire of a returned subexperiment, for "
             "every valid request on a subcircuit whose resets and placeholders act inside the circuit - re-use and user resets included) "
-            "and c19_finish_values (every classical bit of the returned subexperiment has the Herbrand term it has in the subexperiment "
+            "and c19_finish_bit_terms (every classical bit of the returned subexperiment has the Herbrand term it has in the subexperiment "
             "with no reset removed, except the placeholder bit of an identity group); the latter takes well-formedness of the reference "
             "circuit as a hypothesis and stops at bit terms: M1, the masking of the placeholder bit (C11) and the reconstruction formula "
             "(C06) link them to reconstructed values and are not re-proved",
